@@ -35,13 +35,6 @@ Fixpoint prog13 (n : nat) (l : list sx) : list (list C13.Model.label) :=
   | S k => prog13 k l ++ [map (fun e => dec_label13 (sx_nth e 1)) (filter (fun e => Nat.eqb (sx_nat (sx_nth e 0)) k) l)]
   end.
 
-Fixpoint observe13 (fx : bool) (s : C13.Model.state) (ls : list C13.Model.label) : list nat * C13.Model.state :=
-  match ls with
-  | [] => ([], s)
-  | l :: r => let s1 := seq_step fx s l in
-              let '(o, fin) := observe13 fx s1 r in (length (appended s1) :: o, fin)
-  end.
-
 (* case (0 (lazy flags…) (actions…)): a sequential history;
    answer ((entries appended so far, after every action…) (results returned…) (entries…) panicked) *)
 Definition run_variant (fx : bool) (x : sx) : sx :=
@@ -49,7 +42,8 @@ Definition run_variant (fx : bool) (x : sx) : sx :=
   | 0%Z =>
     let shape := map sx_bool (sx_list (sx_arg x 0)) in
     let ls := map dec_label13 (sx_list (sx_arg x 1)) in
-    let '(o, fin) := observe13 fx (C13.Model.init shape) ls in
+    let o := seq_observe fx (C13.Model.init shape) ls in
+    let fin := seq_run fx shape ls in
     L [L (map of_nat o); L (map enc_ret (rets fin)); L (map enc_entry (appended fin)); of_bool (panicked fin)]
   | 1%Z =>
     (* (1 (lazy flags…) (setup…) ((thread action)…) (granted threads…)): a scheduled multi-thread run;
